@@ -11,7 +11,7 @@ use crate::{
     procedures::ExecutionErrorPayload,
     value::Value,
     vm::{
-        runtime::cao_lang_object::{CaoLangObjectBody, ObjectGcGuard},
+        runtime::cao_lang_object::{CaoLangObjectBody, GcMarker, ObjectGcGuard},
         Vm,
     },
 };
@@ -168,9 +168,37 @@ pub fn sorted() -> Function {
 
 fn guard_value(value: Value) -> Option<ObjectGcGuard> {
     match value {
-        Value::Object(o) => Some(ObjectGcGuard::new(o)),
+        // an object that is guarded already stays guarded by that guard (guards do not nest: the
+        // first one to go would unprotect the object)
+        Value::Object(o) if !matches!(unsafe { o.as_ref() }.marker, GcMarker::Protected) => {
+            Some(ObjectGcGuard::new(o))
+        }
         _ => None,
     }
+}
+
+fn guard_rows(rows: &[(Value, Value)]) -> Vec<Option<ObjectGcGuard>> {
+    rows.iter()
+        .flat_map(|(k, v)| [guard_value(*k), guard_value(*v)])
+        .collect()
+}
+
+/// `key_fn(key, value)`; a key function that takes fewer parameters leaves the rest of the pushed
+/// values behind: the stack is put back to where it was
+fn call_key_function<T>(
+    vm: &mut Vm<T>,
+    key_fn: Value,
+    key: Value,
+    value: Value,
+) -> Result<Value, ExecutionErrorPayload> {
+    let height = vm.runtime_data.value_stack.len();
+    vm.stack_push(value)?;
+    vm.stack_push(key)?;
+    let result = vm.run_function(key_fn);
+    while vm.runtime_data.value_stack.len() > height {
+        vm.stack_pop();
+    }
+    result
 }
 
 pub fn native_minmax<T, const LESS: bool>(
@@ -186,21 +214,19 @@ pub fn native_minmax<T, const LESS: bool>(
                     // the key function is free to change the table (or a table used as one of
                     // its keys): work on a copy of the rows
                     let rows: Vec<(Value, Value)> = t.iter().map(|(k, v)| (*k, *v)).collect();
+                    // ... which the table may drop in the meantime: the copies are guarded
+                    let _row_guards = guard_rows(&rows);
                     let Some(first) = rows.first() else {
                         return Ok(Value::Nil);
                     };
-                    vm.stack_push(first.1)?;
-                    vm.stack_push(first.0)?;
                     // the keys are only known to this function, and the key function may
                     // allocate, and therefore collect: the best key so far is guarded
-                    let mut max_key = vm.run_function(key_fn)?;
+                    let mut max_key = call_key_function(vm, key_fn, first.0, first.1)?;
                     let mut _max_key_guard = guard_value(max_key);
                     let mut i = 0;
 
                     for (j, (k, value)) in rows.iter().enumerate().skip(1) {
-                        vm.stack_push(*value)?;
-                        vm.stack_push(*k)?;
-                        let key = vm.run_function(key_fn)?;
+                        let key = call_key_function(vm, key_fn, *k, *value)?;
                         if if LESS { key < max_key } else { key > max_key } {
                             i = j;
                             max_key = key;
@@ -264,14 +290,13 @@ pub fn native_sorted<T>(
                     // sort in place?
                     // the key function is free to change the table: work on a copy of the rows
                     let rows: Vec<(Value, Value)> = t.iter().map(|(k, v)| (*k, *v)).collect();
+                    let _row_guards = guard_rows(&rows);
                     let mut result = Vec::with_capacity(rows.len());
                     // the keys are only known to this function, and the key function may
                     // allocate, and therefore collect: they are guarded until the order is known
                     let mut key_guards = Vec::with_capacity(rows.len());
                     for (k, v) in rows.iter() {
-                        vm.stack_push(*v)?;
-                        vm.stack_push(*k)?;
-                        let key = vm.run_function(key_fn)?;
+                        let key = call_key_function(vm, key_fn, *k, *v)?;
                         key_guards.push(guard_value(key));
                         result.push((key, k, v));
                     }
